@@ -214,7 +214,7 @@ CHECKS = {
               "message merge) and by a value of another field or oneof member; single-field values against rows in both orders "
               "(every 3rd in quick). For each pair: decode(enc(a) ++ enc(b)) == decode(enc(a)) then merge(enc(b)) == the reference "
               "decoder's result (the specification's merge); every order-preserving interleaving of the two top-level record "
-              "sequences with <=2 [3] switches (deviation-bounded explorer, <=200 [3000] per pair) equals the reference result. "
+              "sequences with <=2 [3] switches (deviation-bounded explorer, <=200 [1500] per pair, 60 for pairs over 4 KiB) equals the reference result. "
               "Unknown fields: for every value, 9 unknown records (varint 2 and 10 bytes, fixed64, fixed32, empty and non-empty "
               "length-delimited, empty group, nested group containing varint/group/length-delimited/fixed32, field number 2^29-2) "
               "inserted at every record boundary of every nesting level incl. inside map entries (quick: all boundaries up to 12, a "
